@@ -56,7 +56,7 @@ let parse_header line =
 (* model result as (stored, word) ; None = outside the contract *)
 let model h x y z e : (z * z) option =
   let c = h.c and d = h.dir in
-  let ext = (h.api = "ext" || h.api = "oper" || h.api = "native") in
+  let ext = (h.api = "ext" || h.api = "oper" || h.api = "native" || h.api = "mixed") in
   let r =
     match h.op with
     | "assign" -> if ext then assign_ext c d x sent else assign_int_int c.pol c.ty c.pol c.ty d x sent
@@ -68,8 +68,8 @@ let model h x y z e : (z * z) option =
     | "div" -> if ext then div_ext c d x y sent else div_int c d x y sent
     | "idiv" -> if ext then idiv_ext c d x y sent else idiv_int c d x y sent
     | "rem" -> if ext then rem_ext c d x y sent else rem_int c d x y sent
-    | "add_mul" -> if ext then add_mul_ext c d x y z else add_mul_int c d x y z
-    | "sub_mul" -> if ext then sub_mul_ext c d x y z else sub_mul_int c d x y z
+    | "add_mul" -> if h.api = "mixed" then add_mul_ext_nat c d x y z else if ext then add_mul_ext c d x y z else add_mul_int c d x y z
+    | "sub_mul" -> if h.api = "mixed" then sub_mul_ext_nat c d x y z else if ext then sub_mul_ext c d x y z else sub_mul_int c d x y z
     | "add_2exp" -> if ext then add_2exp_ext c d x e sent else add_2exp_int c d x e sent
     | "sub_2exp" -> if ext then sub_2exp_ext c d x e sent else sub_2exp_int c d x e sent
     | "mul_2exp" -> if ext then mul_2exp_ext c d x e sent else mul_2exp_int c d x e sent
